@@ -90,7 +90,7 @@ def under_overlay_bottom(leaf) -> bool:
     return False
 
 
-def observe(root, size, log) -> Obs:
+def observe(root, size, log, focus=True) -> Obs:
     o = Obs()
     seen = {}
     orig_validate = _ww.validate_size
@@ -110,7 +110,7 @@ def observe(root, size, log) -> Obs:
         with warnings.catch_warnings(record=True) as ws:
             warnings.simplefilter("always")
             try:
-                canv = root.w.render(size, True)
+                canv = root.w.render(size, focus)
             except Exception as e:  # noqa: BLE001
                 o.reason = f"render_error:{type(e).__name__}"
                 return o
@@ -130,7 +130,8 @@ def observe(root, size, log) -> Obs:
         return o
     o.cols, o.rows = canv.cols(), canv.rows()
     if any(len(r) != o.cols for r in grid) or len(grid) != o.rows:
-        o.reason = "unreadable"
+        # rows of different width (e.g. a fixed-size Pile of children of different widths): C01 domain
+        o.reason = "ragged_canvas"
         return o
     o.grid = grid
     o.cursor = canv.cursor
@@ -204,8 +205,8 @@ def node_desc(n, child=None) -> str:
 
     if k == "spy":
         return "spy"
-    if k == "Filler":
-        return f"Filler[h={typ(r.get('height', 'pack'))}]"
+    if k in ("Edit", "Icon", "Button", "CheckBox"):
+        return "real"
     if k == "Padding":
         return f"Padding[w={typ(r.get('width', ['relative', 100]))}]"
     if k == "Overlay":
@@ -226,6 +227,21 @@ def node_desc(n, child=None) -> str:
     if k == "LineBox":
         return f"LineBox[{r.get('sides', 'tlrb') or 'none'}]"
     return k
+
+
+def exc_kind(e) -> str:
+    """abstract kind of an exception for signatures: a child complaining about the *size* it was handed is
+    one mechanism whatever exception class the child happens to use"""
+    m = str(e)
+    if (
+        "values to unpack" in m
+        or "fixed spy handed size" in m
+        or "Cannot pack" in m
+        or "this is not a flow widget" in m
+        or "is not a box widget" in m
+    ):
+        return "child-rejects-size"
+    return type(e).__name__
 
 
 def mode_of(size) -> str:
@@ -276,7 +292,8 @@ def edit_rows_with_position(r, width):
 
 # ----------------------------------------------------------------------------- one case
 class Case:
-    def __init__(self, ctx, recipe, size, collect):
+    def __init__(self, ctx, recipe, size, collect, focus=True):
+        self.focus = bool(focus)
         self.ctx = ctx
         self.recipe = recipe
         self.size = tuple(size)
@@ -330,7 +347,7 @@ class Case:
             try:
                 rep = w.get_cursor_coords(sz)
             except Exception as e:  # noqa: BLE001
-                self.viol(tag, f"get_cursor_coords-raise:{type(e).__name__}", None, f"{n.kind}.get_cursor_coords({sz}) raised {type(e).__name__}: {e}", op)
+                self.viol(tag, f"get_cursor_coords-raise:{exc_kind(e)}", None, f"{n.kind}.get_cursor_coords({sz}) raised {type(e).__name__}: {e}", op)
                 self._blame(n)
                 continue
             try:
@@ -420,17 +437,17 @@ class Case:
             for k in range(nev):
                 ev, btn = EVENTS[(i + k * 2 + cell[0]) % len(EVENTS)]
                 del self.log[:]
-                op = {"op": "mouse", "event": ev, "button": btn, "col": cell[0], "row": cell[1]}
+                op = {"op": "mouse", "event": ev, "button": btn, "col": cell[0], "row": cell[1], "focus": self.focus}
                 try:
-                    root.w.mouse_event(self.size, ev, btn, cell[0], cell[1], True)
+                    root.w.mouse_event(self.size, ev, btn, cell[0], cell[1], self.focus)
                 except Exception as e:  # noqa: BLE001
-                    self.viol("c2", f"mouse_event-raise:{type(e).__name__}", o.cellmap[cell], f"mouse_event at {cell} raised {type(e).__name__}: {e}", op)
+                    self.viol("c2", f"mouse_event-raise:{exc_kind(e)}", o.cellmap[cell], f"mouse_event at {cell} raised {type(e).__name__}: {e}", op)
                     continue
                 ctx.count("c2_mouse_cells")
                 entries = [e for e in self.log if e[0] == "mouse"]
                 self.expect_mouse(o, cell, entries, "c2", op)
         # the probe events must not have changed what is drawn
-        o2 = observe(root, self.size, self.log)
+        o2 = observe(root, self.size, self.log, self.focus)
         if not o2.ok or o2.grid != o.grid:
             ctx.count("c2_probe_changed_canvas")
             return None
@@ -446,16 +463,16 @@ class Case:
         picks = rng.sample(cells, min(len(cells), ctx.pick(4, 8)))
         for cell in picks:
             root = self.fresh()
-            of = observe(root, self.size, self.log)
+            of = observe(root, self.size, self.log, self.focus)
             if not of.ok or of.grid != o.grid:
                 ctx.count("c2b_fresh_tree_differs")
                 continue
             del self.log[:]
-            op = {"op": "mouse", "event": "mouse press", "button": 1, "col": cell[0], "row": cell[1], "fresh": True}
+            op = {"op": "mouse", "event": "mouse press", "button": 1, "col": cell[0], "row": cell[1], "fresh": True, "focus": self.focus}
             try:
-                root.w.mouse_event(self.size, "mouse press", 1, cell[0], cell[1], True)
+                root.w.mouse_event(self.size, "mouse press", 1, cell[0], cell[1], self.focus)
             except Exception as e:  # noqa: BLE001
-                self.viol("c2b", f"mouse_event-raise:{type(e).__name__}", of.cellmap[cell], f"button-1 press at {cell} raised {type(e).__name__}: {e}", op)
+                self.viol("c2b", f"mouse_event-raise:{exc_kind(e)}", of.cellmap[cell], f"button-1 press at {cell} raised {type(e).__name__}: {e}", op)
                 continue
             ctx.count("c2b_button1_cells")
             entries = [e for e in self.log if e[0] == "mouse"]
@@ -496,7 +513,7 @@ class Case:
             try:
                 ret = root.w.move_cursor_to_coords(self.size, cell[0], cell[1])
             except Exception as e:  # noqa: BLE001
-                self.viol("c3", f"move_cursor-raise:{type(e).__name__}", lf, f"move_cursor_to_coords{cell} raised {type(e).__name__}: {e}", op)
+                self.viol("c3", f"move_cursor-raise:{exc_kind(e)}", lf, f"move_cursor_to_coords{cell} raised {type(e).__name__}: {e}", op)
                 break
             ctx.count("c3_move_evals")
             moves = [e for e in self.log if e[0] == "move"]
@@ -555,7 +572,7 @@ class Case:
                 try:
                     rep = root.w.get_cursor_coords(self.size)
                 except Exception as e:  # noqa: BLE001
-                    self.viol("c3", f"get_cursor_coords-after-move-raise:{type(e).__name__}", lf, f"after move to {cell}: {type(e).__name__}: {e}", op)
+                    self.viol("c3", f"get_cursor_coords-after-move-raise:{exc_kind(e)}", lf, f"after move to {cell}: {type(e).__name__}: {e}", op)
                     break
                 ctx.count("c3_move_accepted_row_checked")
                 if rep is None or rep[1] != cell[1]:
@@ -582,7 +599,7 @@ class Case:
             ctx.count("skipped_build_error")
             ctx.count("skipped_build_error:" + type(e).__name__)
             return None
-        o = observe(root, self.size, self.log)
+        o = observe(root, self.size, self.log, self.focus)
         if not o.ok:
             if o.reason.startswith("render_error"):
                 ctx.count("skipped_render_error")
@@ -598,6 +615,12 @@ class Case:
         for k in T.kinds_of(self.recipe):
             ctx.count("judged_with:" + k)
         ctx.count("judged_root:" + self.recipe["k"] + ":" + mode_of(self.size))
+        if not self.focus:
+            # unfocused rendering: only hit-testing is meaningful (no cursor is drawn)
+            ctx.count("cases_judged_unfocused_root")
+            self.clause2(o)
+            self.clause2b(o)
+            return o
         self.clause1(o)
         o2 = self.clause2(o)
         if o2 is not None:
@@ -620,14 +643,14 @@ def node_index_path(n):
 
 
 # ----------------------------------------------------------------------------- shrinking / reporting
-def subcases(recipe, size):
+def subcases(recipe, size, focus=True):
     """(child recipe, size it was observed to be handed) for each direct child, by observation"""
     log = []
     try:
         with warnings.catch_warnings():
             warnings.simplefilter("ignore")
             root = T.build(recipe, log)
-        o = observe(root, tuple(size), log)
+        o = observe(root, tuple(size), log, focus)
     except Exception:  # noqa: BLE001
         return []
     if not o.ok:
@@ -659,9 +682,9 @@ class Quiet:
         return self._ctx.subrng(*key)
 
 
-def run_collect(ctx, recipe, size):
+def run_collect(ctx, recipe, size, focus=True):
     got = []
-    Case(ctx, recipe, size, got).run()
+    Case(ctx, recipe, size, got, focus).run()
     return got
 
 
@@ -674,7 +697,7 @@ def strip(recipe):
     return recipe
 
 
-def report(ctx, recipe, size, viols):
+def report(ctx, recipe, size, viols, focus=True):
     """shrink each distinct (clause, kind) by descending into subtrees that still show it, then report"""
     done = set()
     for v in viols:
@@ -686,8 +709,8 @@ def report(ctx, recipe, size, viols):
         q = Quiet(ctx)
         for _ in range(8):
             moved = False
-            for cr, cs in subcases(r, s):
-                got = [g for g in run_collect(q, cr, cs) if (g["clause"], g["kind"]) == key]
+            for cr, cs in subcases(r, s, focus):
+                got = [g for g in run_collect(q, cr, cs, focus) if (g["clause"], g["kind"]) == key]
                 if got:
                     r, s, best = cr, cs, got[0]
                     moved = True
@@ -696,19 +719,19 @@ def report(ctx, recipe, size, viols):
                 break
         clause = best["clause"]
         sig = f"C09|{clause}|{best['kind']}|{mode_of(s)}|{best['path']}"
-        wit = {"recipe": strip(r), "size": s, "clause": clause, "kind": best["kind"], "op": best["op"]}
+        wit = {"recipe": strip(r), "size": s, "focus": focus, "clause": clause, "kind": best["kind"], "op": best["op"]}
         ctx.violation(sig, best["msg"] + f"  [root rendered at {tuple(s)}]", wit)
 
 
 # ----------------------------------------------------------------------------- run / replay
-def do_case(ctx, recipe, size, queue=None):
+def do_case(ctx, recipe, size, queue=None, focus=True):
     got = []
-    c = Case(ctx, recipe, size, got)
+    c = Case(ctx, recipe, size, got, focus)
     o = c.run()
     ok = o is not None
-    ctx.case((json.dumps(strip(recipe), sort_keys=True), list(size)), nontrivial=ok and bool(o.cellmap))
+    ctx.case((json.dumps(strip(recipe), sort_keys=True), list(size), bool(focus)), nontrivial=ok and bool(o.cellmap))
     if got:
-        report(ctx, recipe, size, got)
+        report(ctx, recipe, size, got, focus)
     if ok and queue is not None:
         queue.extend(c.subs)
     return ok
@@ -767,9 +790,10 @@ def run(ctx):
                 continue
             ctx.count("trees_generated")
             queue = []
+            rfocus = rng.random() < 0.8
             for attempt in range(3):
                 size = T.root_size(rng, recipe, mode)
-                if do_case(ctx, recipe, size, queue):
+                if do_case(ctx, recipe, size, queue, rfocus):
                     if ncases <= 2:
                         ctx.sample({"recipe": strip(recipe), "size": size})
                     break
@@ -813,4 +837,4 @@ SEEDS = [
 
 def replay(ctx, wit):
     urwid.set_encoding("utf-8")
-    do_case(ctx, wit["recipe"], wit["size"])
+    do_case(ctx, wit["recipe"], wit["size"], None, wit.get("focus", True))
